@@ -135,8 +135,9 @@ fn c13_bytes_codec_k1_c2() {
     core::mem::forget(f);
 }
 
-/// end-to-end spot check of the induction: 3 bytes, every chunking, Pending anywhere (thorough)
-#[cfg(feature = "thorough")]
+/// end-to-end spot check of the induction: 3 bytes, every chunking, Pending anywhere
+/// measured on 2026-09-27: CBMC runs out of memory on it (error after ~6 min): kept for reference under its own feature, outside every tier
+#[cfg(feature = "oversize")]
 #[kani::proof] #[kani::unwind(12)]
 fn c13_end_to_end_3() {
     struct Script { data: [u8; 3], pos: usize, pend: u8 }
